@@ -36,6 +36,13 @@ AnyT == 6
 Annotated == 7
 
 tk(s, k) == [t |-> "tok", s |-> s, k |-> k]
+\* the opening parenthesis of an annotated PATTERN `(x : T)`: printed by the annotation itself (see SelfParenPats)
+tkp == [t |-> "tok", s |-> "(", k |-> "ent", sp |-> "elide"]
+\* the delimiter of an ANNOTATED or MANIFEST existential parameter: the binder prints the pair itself and its
+\* presentation starts at the delimiter (existential_prefix), so a comment directly after it always leads the
+\* parameter and is emitted before the delimiter.  A plain binder (`exists (x)`, `exists ((x))`) is printed inside a
+\* separate delimited group, and a comment before the delimiter moves inside to the binder: there it is a plain word.
+tke == [t |-> "tok", s |-> "(", k |-> "ent", sp |-> "always"]
 sl(r) == [t |-> "slot", r |-> r]
 pt == [t |-> "pat"]          \* the binder position of a former: filled by the pattern spelling of the node
 
@@ -60,6 +67,14 @@ Formers == [
   comatch |-> [c |-> Atom, tpl |-> <<tk("comatch", "ent"), tk("|", "arm"), tk(".d", "ent"), tk("=>", "sep"), sl(AnyT), tk("end", "close")>>],
   data   |-> [c |-> Atom, tpl |-> <<tk("data", "ent"), tk("|", "arm"), tk("+C", "word"), tk(":", "sep"), sl(AnyT), tk("end", "close")>>],
   codata |-> [c |-> Atom, tpl |-> <<tk("codata", "ent"), tk("|", "arm"), tk(".d", "word"), tk(":", "sep"), sl(AnyT), tk("end", "close")>>],
+  \* a destructor with a parameter copattern between its name and the colon (the arm's first entity is then the
+  \* parameter, not the result type: comments before the arm marker are stored under it)
+  codatap |-> [c |-> Atom, tpl |-> <<tk("codata", "ent"), tk("|", "arm"), tk(".d", "word"), tkp, tk("x", "ent"), tk(":", "sep"), tk("a", "ent"), tk(")", "close"), tk(":", "sep"), sl(AnyT), tk("end", "close")>>],
+  \* the same with parameters that do not fit 100 columns: the printer wraps the telescope by itself at the default width
+  codatapw |-> [c |-> Atom, tpl |-> <<tk("codata", "ent"), tk("|", "arm"), tk(".d", "word"),
+                 tkp, tk("first_parameter_with_a_long_name", "ent"), tk(":", "sep"), tk("First_long_type_name", "ent"), tk(")", "close"),
+                 tkp, tk("second_parameter_with_a_long_name", "ent"), tk(":", "sep"), tk("Second_long_type_name", "ent"), tk(")", "close"),
+                 tk(":", "sep"), sl(AnyT), tk("end", "close")>>],
   tuple  |-> [c |-> Atom, tpl |-> <<tk("(", "ent"), sl(Annotated), tk(",", "sep"), sl(Annotated), tk(")", "close")>>],
   proj   |-> [c |-> Projection, tpl |-> <<sl(Projection), tk("/", "post"), tk("f", "post")>>],
   app    |-> [c |-> Application, tpl |-> <<sl(Application), sl(Projection)>>],
@@ -70,6 +85,11 @@ Formers == [
   forall |-> [c |-> Quantifier, tpl |-> <<tk("forall", "ent"), pt, tk(".", "sep"), sl(Quantifier)>>],
   sigma  |-> [c |-> Quantifier, tpl |-> <<tk("sigma", "ent"), pt, tk(".", "sep"), sl(Quantifier)>>],
   exists |-> [c |-> Quantifier, tpl |-> <<tk("exists", "ent"), tk("(", "word"), tk("x", "ent"), tk(")", "close"), tk(".", "sep"), sl(AnyT)>>],
+  \* existential parameters in their other spellings: annotated, manifest (`as`) with two nested labels, and with a
+  \* redundant pair inside the parameter's own delimiters
+  existsa |-> [c |-> Quantifier, tpl |-> <<tk("exists", "ent"), tke, tk("x", "ent"), tk(":", "sep"), tk("a", "ent"), tk(")", "close"), tk(".", "sep"), sl(AnyT)>>],
+  existsm |-> [c |-> Quantifier, tpl |-> <<tk("exists", "ent"), tke, tk("f", "ent"), tk("=", "sep"), tk("g", "ent"), tk("=", "sep"), tk("x", "ent"), tk("as", "sep"), tk("a", "ent"), tk(":", "sep"), tk("b", "ent"), tk(")", "close"), tk(".", "sep"), sl(AnyT)>>],
+  existsd |-> [c |-> Quantifier, tpl |-> <<tk("exists", "ent"), tk("(", "word"), tk("(", "ent"), tk("x", "ent"), tk(")", "close"), tk(")", "close"), tk(".", "sep"), sl(AnyT)>>],
   fn     |-> [c |-> Binder, tpl |-> <<tk("fn", "ent"), pt, tk("=>", "sep"), sl(Binder)>>],
   fix    |-> [c |-> Binder, tpl |-> <<tk("fix", "ent"), pt, tk("=>", "sep"), sl(Binder)>>],
   do     |-> [c |-> Binder, tpl |-> <<tk("do", "ent"), pt, tk("<-", "sep"), sl(Binder), tk(";", "sep"), sl(Binder)>>],
@@ -80,6 +100,11 @@ Formers == [
   letfn  |-> [c |-> Binder, tpl |-> <<tk("let", "ent"), tk("f", "ent"), pt, tk(":", "sep"), sl(AnyT), tk("=", "sep"), sl(AnyT), tk("in", "sep"), sl(Binder)>>],
   letbang |-> [c |-> Binder, tpl |-> <<tk("let", "ent"), tk("!", "word"), tk("f", "ent"), pt, tk("=", "sep"), sl(AnyT), tk("in", "sep"), sl(Binder)>>],
   letfix |-> [c |-> Binder, tpl |-> <<tk("let", "ent"), tk("fix", "word"), tk("f", "ent"), pt, tk(":", "sep"), sl(AnyT), tk("=", "sep"), sl(AnyT), tk("in", "sep"), sl(Binder)>>],
+  \* an untyped binding whose parameter telescope does not fit 100 columns
+  letwide |-> [c |-> Binder, tpl |-> <<tk("let", "ent"), tk("compose", "ent"),
+                 tkp, tk("first_parameter_with_a_long_name", "ent"), tk(":", "sep"), tk("First_long_type_name", "ent"), tk(")", "close"),
+                 tkp, tk("second_parameter_with_a_long_name", "ent"), tk(":", "sep"), tk("Second_long_type_name", "ent"), tk(")", "close"),
+                 tk("=", "sep"), sl(AnyT), tk("in", "sep"), sl(Binder)>>],
   meta   |-> [c |-> Binder, tpl |-> <<tk("@[inline]", "ent"), sl(Binder)>>],
   ann    |-> [c |-> AnnOnly, tpl |-> <<sl(AnyT), tk(":", "sep"), sl(AnyT)>>],
   named  |-> [c |-> AnnOnly, tpl |-> <<tk("f", "ent"), tk("=", "sep"), sl(Annotated)>>],
@@ -89,7 +114,7 @@ FN == DOMAIN Formers
 
 (* spellings the printer replaces by a canonical one (`comatch p => t end` by `fn p => t`, `define` by   *)
 (* `def`, a bare constructor argument by a parenthesised one): token-level comparisons skip these trees *)
-Rewritten == {"cabs", "define", "ctorb"}
+Rewritten == {"cabs", "define", "ctorb", "existsd"}
 
 (* pattern spellings for the binder position (canonical forms; `ppar` is a redundant pair the printer removes) *)
 PatTpl == [
@@ -149,8 +174,8 @@ Trees(d) ==
              : f \in Inner}
 
 \* sp: the opening parenthesis that a self-parenthesising former (an annotation) prints as part of itself
-po(need, self) == [s |-> "(", k |-> "ent", p |-> IF need THEN "need" ELSE "red", sp |-> need /\ self]
-pc(need) == [s |-> ")", k |-> "close", p |-> IF need THEN "need" ELSE "red", sp |-> FALSE]
+po(need, self) == [s |-> "(", k |-> "ent", p |-> IF need THEN "need" ELSE "red", sp |-> IF need /\ self THEN "elide" ELSE "no"]
+pc(need) == [s |-> ")", k |-> "close", p |-> IF need THEN "need" ELSE "red", sp |-> "no"]
 
 RECURSIVE Render(_, _)
 \* fully parenthesised token sequence of tree t at a position of requirement r
@@ -158,8 +183,8 @@ Render(t, r) ==
   LET tpl == Formers[t.f].tpl
       RECURSIVE Go(_, _)
       Go(i, k) == IF i > Len(tpl) THEN <<>>
-                  ELSE IF tpl[i].t = "tok" THEN <<[s |-> tpl[i].s, k |-> tpl[i].k, p |-> "no", sp |-> FALSE]>> \o Go(i + 1, k)
-                  ELSE IF tpl[i].t = "pat" THEN [j \in DOMAIN PatTpl[t.pat] |-> [s |-> PatTpl[t.pat][j].s, k |-> PatTpl[t.pat][j].k, p |-> "no", sp |-> (t.pat \in SelfParenPats /\ j = 1)]] \o Go(i + 1, k)
+                  ELSE IF tpl[i].t = "tok" THEN <<[s |-> tpl[i].s, k |-> tpl[i].k, p |-> "no", sp |-> IF "sp" \in DOMAIN tpl[i] THEN tpl[i].sp ELSE "no"]>> \o Go(i + 1, k)
+                  ELSE IF tpl[i].t = "pat" THEN [j \in DOMAIN PatTpl[t.pat] |-> [s |-> PatTpl[t.pat][j].s, k |-> PatTpl[t.pat][j].k, p |-> "no", sp |-> IF t.pat \in SelfParenPats /\ j = 1 THEN "elide" ELSE "no"]] \o Go(i + 1, k)
                   ELSE Render(t.kids[k], tpl[i].r) \o Go(i + 1, k + 1)
       need == Need(r, t.f)
   IN  <<po(need, t.f \in SelfParen)>> \o Go(1, 1) \o <<pc(need)>>
@@ -190,7 +215,7 @@ NextEnt(toks, g) == LET S == {i \in (g + 1)..Len(toks) : toks[i].k = "ent"} IN
 \* multi-line, and `parentheses preserve` keeps the grouping node: then the comment stays inside (hop = FALSE).
 PredGapH(toks, g, hop) ==
   LET e == NextEnt(toks, g) IN
-  IF hop /\ g >= 1 /\ toks[g].sp THEN g - 1
+  IF g >= 1 /\ (toks[g].sp = "always" \/ (hop /\ toks[g].sp = "elide")) THEN g - 1
   ELSE IF e = 0 THEN Len(toks)
   ELSE LET arms == {i \in (g + 1)..(e - 1) : toks[i].k = "arm"} IN
        IF arms # {} THEN (CHOOSE i \in arms : \A j \in arms : i >= j) - 1 ELSE e - 1
@@ -203,9 +228,9 @@ CrossedP(toks, P, g) == {toks[i].k : i \in (g + 1)..P[g]}
 \* what the property asks: a comment stays on the same side of every syntactic element
 SameSideStrict(toks) == LET P == Pred(toks) IN \A g \in 0..Len(toks) : CrossedP(toks, P, g) \subseteq {"sep", "arm"}
 \* what this design guarantees
-NeverBackwards(toks) == LET P == Pred(toks) IN \A g \in 0..Len(toks) : P[g] >= g \/ (g >= 1 /\ toks[g].sp /\ P[g] = g - 1)
+NeverBackwards(toks) == LET P == Pred(toks) IN \A g \in 0..Len(toks) : P[g] >= g \/ (g >= 1 /\ toks[g].sp # "no" /\ P[g] = g - 1)
 NeverCrossesEntity(toks) == LET P == Pred(toks) IN \A g \in 0..Len(toks) : P[g] >= g => "ent" \notin CrossedP(toks, P, g)
-OrderKept(toks) == LET P == Pred(toks) IN \A g \in 0..(Len(toks) - 1) : P[g] <= P[g + 1] \/ (toks[g + 1].sp /\ P[g + 1] = g)
+OrderKept(toks) == LET P == Pred(toks) IN \A g \in 0..(Len(toks) - 1) : P[g] <= P[g + 1] \/ (toks[g + 1].sp # "no" /\ P[g + 1] = g)
 Stable(toks) == LET P == Pred(toks) IN \A g \in 0..Len(toks) : P[P[g]] = P[g]   \* re-formatting does not move it again
 
 (* ------------------------------------------------------------------------------------------------ *)
